@@ -83,7 +83,11 @@ def _patch():
     @functools.wraps(orig_opt)
     def orun(self, *a, **k):
         if _INJECT['opt'] is not None:
-            return _INJECT['opt'].pop(0)
+            item = _INJECT['opt'].pop(0)
+            if isinstance(item, Exception):
+                # (injected fault: this optimisation run breaks)
+                raise item
+            return item
         out = orig_opt(self, *a, **k)
         if _INJECT.get('seen_opt') is not None:
             _INJECT['seen_opt'].append((np.array(out[0]), out[1]))
@@ -397,11 +401,19 @@ def optimisation_case(ctx, rng, idx):
     ctx.case(('opt', kind, n_runs, n_par), True, sample=feats)
     ests = [(1000.0 * (r + 1) + np.arange(n_par), -7.5 - r)
             for r in range(n_runs)]
+    # injected fault: one of the runs breaks inside the optimiser; its rows
+    # are reported as NaN and the other runs keep their estimates
+    broken = int(rng.integers(n_runs)) if rng.random() < 0.3 else None
+    feats['broken_run'] = broken is not None
+    inject = list(ests)
+    if broken is not None:
+        inject[broken] = FloatingPointError('injected optimiser failure')
+        ests[broken] = (np.full(n_par, np.nan), np.nan)
     try:
         ctrl = chi.OptimisationController(post, seed=int(rng.integers(99)))
         ctrl.set_n_runs(n_runs)
         ctrl.set_parallel_evaluation(False)
-        _INJECT['opt'] = list(ests)
+        _INJECT['opt'] = inject
         try:
             tab = ctrl.run(n_max_iterations=3)
         finally:
@@ -429,9 +441,11 @@ def optimisation_case(ctx, rng, idx):
                 # (population-level entries have the ID None, as get_id()
                 # says: a NaN is not None for code that reads the table)
                 same_id = (idv is None) if _id is None else (idv == _id)
+                def same(a_, b_):
+                    return a_ == b_ or (a_ != a_ and b_ != b_)
                 if row['Parameter'] != name or not same_id or \
-                        row['Estimate'] != ests[r][0][k] or \
-                        row['Score'] != ests[r][1]:
+                        not same(row['Estimate'], ests[r][0][k]) or \
+                        not same(row['Score'], ests[r][1]):
                     prob.append('run %d row %d: %s' % (
                         r + 1, k, dict(row)))
                     break
